@@ -36,7 +36,7 @@ func (c18) Count(tier string) int {
 	if tier == "thorough" {
 		return 1500
 	}
-	return 260
+	return 280 // the 21 exotic-value cases sit at idx%13 == 7, up to idx 267
 }
 
 var c18Points = []string{"cons.recv", "sinks.call", "sinks.submit", "stop.flag", "stop.done", "stop.nil",
@@ -95,7 +95,11 @@ func (c18) Gen(rng *rand.Rand, tier string, idx int) Case {
 		// as key / sort column and as measured value, between ordinary rows
 		k := idx / 13
 		kind := c18ExoticKinds[k%len(c18ExoticKinds)]
-		c.Ops = [][]string{{"exotic", kind, strconv.Itoa(k/len(c18ExoticKinds)*5 + rng.Intn(5))}}
+		// the value list is walked in three slices: seven kinds × three slices cover every (kind, value) pair in 21 cases
+		slice := (k / len(c18ExoticKinds)) % 3
+		for p := slice * 6; p < slice*6+6; p++ {
+			c.Ops = append(c.Ops, []string{"exotic", kind, strconv.Itoa(p)})
+		}
 		c.Stat = append(c.Stat, "exotic-row-values", "exotic-"+kind)
 		return c
 	}
@@ -609,8 +613,18 @@ func c18ExoticValues() []interface{} {
 	var np *c18Stringer
 	var nt *time.Time
 	f32 := float32(0.1)
-	return []interface{}{[]byte("ab"), []byte("ab"), np, nt, c18Stringer{"x"}, &c18Stringer{"y"}, time.Unix(1700000000, 0), "21.5°C", "",
-		math.NaN(), math.Inf(1), uint64(1) << 63, &f32, struct{ A int }{1}, []int{1, 2}, map[string]int{"a": 1}, json.Number("7"), complex(1, 2)}
+	return []interface{}{[]byte("ab"), np, nt, c18Stringer{"x"}, &c18Stringer{"y"}, time.Unix(1700000000, 0), "21.5°C", "",
+		math.NaN(), math.Inf(1), uint64(1) << 63, &f32, struct{ A int }{1}, []int{1, 2}, map[string]int{"a": 1}, json.Number("7"), complex(1, 2), []interface{}{"p", 1}}
+}
+
+// c18ExoticTwins: a second value of the same Go type for each entry of c18ExoticValues (two different keys of that type
+// in one batch are compared by ORDER BY)
+func c18ExoticTwins() []interface{} {
+	var np *c18Stringer
+	var nt *time.Time
+	f32 := float32(0.2)
+	return []interface{}{[]byte("cd"), np, nt, c18Stringer{"z"}, &c18Stringer{"w"}, time.Unix(1700000001, 0), "22.5°C", " ",
+		math.NaN(), math.Inf(-1), uint64(1)<<63 + 2048, &f32, struct{ A int }{2}, []int{3}, map[string]int{"b": 2}, json.Number("8"), complex(2, 1), []interface{}{"q"}}
 }
 
 // c18exotic: one query, ordinary rows, rows carrying an exotic value in k / v / w, ordinary rows again, Stop.
@@ -653,28 +667,15 @@ func c18exotic(kind string, pick int) [][]string {
 	emit(row(1, "a", 1, 1.5))
 	emit(row(2, "a", 1, 2.5))
 	emit(row(3, "a", 0, 0.5))
-	vals := c18ExoticValues()
-	x := vals[pick%len(vals)]
-	y := vals[(pick/len(vals)+pick)%len(vals)]
-	// the exotic value as the key / sort column (twice: a comparison of two such values), then as a measured value
+	vals, twins := c18ExoticValues(), c18ExoticTwins()
+	x, x2 := vals[pick%len(vals)], twins[pick%len(vals)]
+	y := x
+	// the exotic value as the key / sort column (two different values of the type: ORDER BY compares them), then as a measured value
 	emit(row(4, x, 1, 1.0))
-	emit(row(5, x, 1, 1.0))
+	emit(row(5, x2, 0, 1.0)) // v = 0: a CEP match that began with the ordinary rows ends here; the next one sees exotic measures only
 	emit(row(6, "a", 1, y))
 	emit(row(7, "a", 1, y))
 	emit(row(8, "a", 0, y))
-	if kind == "join" {
-		// a table write after the exotic lookups must return
-		done := make(chan struct{})
-		go func() {
-			guard("upsert", func() { ssql.UpsertTable("meta", map[string]interface{}{"k": "b", "loc": "B"}) })
-			close(done)
-		}()
-		select {
-		case <-done:
-		case <-time.After(3 * time.Second):
-			add("table-write-blocked")
-		}
-	}
 	// ordinary rows again: they must be processed
 	emit(row(101, "a", 1, 1.5))
 	emit(row(102, "a", 1, 2.5))
@@ -696,10 +697,24 @@ func c18exotic(kind string, pick int) [][]string {
 	if missing() {
 		add("later-rows-lost", kind)
 	}
+	if kind == "join" {
+		// a table write after the exotic lookups must return
+		done := make(chan struct{})
+		go func() {
+			guard("upsert", func() { ssql.UpsertTable("meta", map[string]interface{}{"k": "b", "loc": "B"}) })
+			close(done)
+		}()
+		select {
+		case <-done:
+		case <-time.After(3 * time.Second):
+			add("table-write-blocked")
+		}
+	}
 	if kind == "cepopen" {
 		// an open match over exotic measured values is flushed by Stop
 		emit(row(201, "a", 1, y))
 		emit(row(202, "a", 1, y))
+		time.Sleep(60 * time.Millisecond) // let the processor take them: the match must be open when Stop arrives
 	}
 	stopped := make(chan struct{})
 	go func() { guard("stop", func() { ssql.Stop() }); close(stopped) }()
